@@ -138,8 +138,8 @@ Section Method.
     (forall i, (i < m_np s)%nat -> fst (wstep W vs s o) i = fst vs i) /\
     (forall i, (i < m_ne s)%nat -> snd (wstep W vs s o) i = snd vs i).
   Proof.
-    destruct o as [|f p|f|f p gamma]; cbn [wstep fst snd]; split; intros i Hi; try reflexivity;
-      apply upd_other; lia.
+    destruct o as [|f p|f|f p gamma|f dir|f p rel eps|f x0 dirs]; cbn [wstep fst snd]; split; intros i Hi; try reflexivity;
+      repeat (rewrite upd_other by lia); reflexivity.
   Qed.
 
   Lemma sample_below_mono np ne np' ne' t :
@@ -153,6 +153,13 @@ Section Method.
 
   Lemma mstep_counters s o : (m_np s <= m_np (mstep s o))%nat /\ (m_ne s <= m_ne (mstep s o))%nat.
   Proof. destruct o; cbn; lia. Qed.
+
+  Lemma keys_below_neg n (dir : pdict) :
+    keys_below n dir = true -> keys_below (S n) (prune (p_neg dir)) = true.
+  Proof.
+    intros Hd. apply keys_below_iff. intros k Hk. apply keys_prune_incl in Hk.
+    unfold p_neg, p_scal in Hk. rewrite keys_scale in Hk. apply (proj1 (keys_below_iff n dir) Hd) in Hk. lia.
+  Qed.
 
   (** the value of the point recorded by a proximal step is the proximal point *)
   Lemma prox_point_value (rho : nat -> E) n (p : pdict) gamma (xr : E) :
@@ -174,7 +181,7 @@ Section Method.
   Qed.
 
   Lemma Inv_step s vs o :
-    Inv s vs -> op_wf s o = true -> (match o with MProx f _ _ => has_prox W f | _ => true end) = true ->
+    Inv s vs -> op_wf s o = true -> step_ok W o = true ->
     Inv (mstep s o) (wstep W vs s o).
   Proof.
     intros HI Hwf Hpx f t Hin.
@@ -186,7 +193,7 @@ Section Method.
     { intros f0 t0 Hin0. destruct (HI f0 t0 Hin0) as [Hb Hg]. split.
       - exact (sample_below_mono _ _ _ _ t0 Hc1 Hc2 Hb).
       - rewrite (sample_at_agree (fst vs) _ (snd vs) _ _ _ t0 Hb Hr Hp). exact Hg. }
-    destruct o as [|g p|g|g p gamma]; cbn [mstep m_samples op_wf] in Hin, Hwf.
+    destruct o as [|g p|g|g p gamma|g dir|g p rel eps|g x0 dirs]; cbn [mstep m_samples op_wf step_ok] in Hin, Hwf, Hpx.
     - apply Hold, Hin.
     - apply in_app_or in Hin as [Hin|[Heq|[]]]; [apply Hold, Hin|].
       injection Heq as <- <-. split.
@@ -233,22 +240,218 @@ Section Method.
         apply (Gen_xveq W g xr); [|exact (prox_point_value (fst vs) (m_np s) p gamma xr Hk Hnd Hg)].
         apply (Gen_veq W g xr G); [apply prox_genuine; assumption|].
         intros w. rewrite inner_add_l, inner_scal_l, inner_zero_l. lra.
+    - apply in_app_or in Hin as [Hin|[Heq|[]]]; [apply Hold, Hin|].
+      injection Heq as <- <-. split.
+      + assert (H1 : Nat.ltb (m_np s) (S (m_np s)) = true) by (apply Nat.ltb_lt; lia).
+        assert (H2 : Nat.ltb (m_ne s) (S (m_ne s)) = true) by (apply Nat.ltb_lt; lia).
+        unfold sample_below. cbn [mstep m_np m_ne]. rewrite (keys_below_neg (m_np s) dir Hwf).
+        unfold keys_below, ekeys_below. cbn [forallb ekey_below]. rewrite H1, H2. reflexivity.
+      + cbn [sample_at wstep fst snd].
+        set (d := evalP (fst vs) dir).
+        cbn [evalP evalE evalK]. rewrite !upd_same, Q2R_one.
+        replace (1 * snd (lmo W g d) + 0) with (snd (lmo W g d)) by lra.
+        apply (Gen_xveq W g (fst (lmo W g d))).
+        * apply (Gen_veq W g (fst (lmo W g d)) (vneg d)); [apply lmo_genuine; exact Hpx|].
+          intros w. rewrite inner_evalP, dsum_prune, <- inner_evalP.
+          rewrite (evalP_neg _ dir w).
+          rewrite (evalP_agree (fst vs) (upd (fst vs) (m_np s) (fst (lmo W g d))) (m_np s) dir Hwf)
+            by (intros i Hi; apply upd_other; lia).
+          reflexivity.
+        * intros w. rewrite inner_add_l, inner_scal_l, inner_zero_l. lra.
+    - apply in_app_or in Hin as [Hin|[Heq|[]]]; [apply Hold, Hin|].
+      injection Heq as <- <-. split.
+      + assert (H1 : Nat.ltb (m_np s) (S (S (m_np s))) = true) by (apply Nat.ltb_lt; lia).
+        assert (H2 : Nat.ltb (m_ne s) (S (m_ne s)) = true) by (apply Nat.ltb_lt; lia).
+        unfold sample_below. cbn [mstep m_np m_ne].
+        rewrite (keys_below_mono (m_np s) (S (S (m_np s))) p) by (try lia; exact Hwf).
+        unfold keys_below, ekeys_below. cbn [forallb ekey_below]. rewrite H1, H2. reflexivity.
+      + cbn [sample_at wstep fst snd evalP evalE evalK].
+        rewrite (evalP_agree (fst vs) (upd (upd (fst vs) (m_np s) _) (S (m_np s)) _) (m_np s) p Hwf)
+          by (intros i Hi; rewrite upd_other by lia; apply upd_other; lia).
+        rewrite (upd_other _ (S (m_np s)) _ (m_np s)) by lia. rewrite !upd_same, Q2R_one.
+        set (x := evalP (fst vs) p).
+        replace (1 * snd (orc W g x) + 0) with (snd (orc W g x)) by lra.
+        apply (Gen_veq W g x (fst (orc W g x))); [apply orc_genuine|].
+        intros w. rewrite inner_add_l, inner_scal_l, inner_zero_l. lra.
+    - apply in_app_or in Hin as [Hin|[Heq|[]]]; [apply Hold, Hin|].
+      injection Heq as <- <-. split.
+      + assert (H0 : Nat.ltb (m_np s) (S (S (m_np s))) = true) by (apply Nat.ltb_lt; lia).
+        assert (H1 : Nat.ltb (S (m_np s)) (S (S (m_np s))) = true) by (apply Nat.ltb_lt; lia).
+        assert (H2 : Nat.ltb (m_ne s) (S (m_ne s)) = true) by (apply Nat.ltb_lt; lia).
+        unfold sample_below. cbn [mstep m_np m_ne].
+        unfold keys_below, ekeys_below. cbn [forallb ekey_below]. rewrite H0, H1, H2. reflexivity.
+      + cbn [sample_at wstep fst snd evalP evalE evalK].
+        rewrite (upd_other _ (S (m_np s)) _ (m_np s)) by lia. rewrite !upd_same, Q2R_one.
+        set (x := linesearch W g (evalP (fst vs) x0) (map (evalP (fst vs)) dirs)).
+        replace (1 * snd (orc W g x) + 0) with (snd (orc W g x)) by lra.
+        apply (Gen_xveq W g x).
+        * apply (Gen_veq W g x (fst (orc W g x))); [apply orc_genuine|].
+          intros w. rewrite inner_add_l, inner_scal_l, inner_zero_l. lra.
+        * intros w. rewrite inner_add_l, inner_scal_l, inner_zero_l. lra.
   Qed.
 
   (** Every recorded sample of a well-formed program is a genuine sample of its function in the
       world, at the values the real run gives to the leaves — for every program length. *)
   Theorem world_samples_genuine ops : forall s vs,
-    mwf ops s = true -> prox_ok W ops = true -> Inv s vs -> Inv (mrun ops s) (wrun W ops s vs).
+    mwf ops s = true -> steps_ok W ops = true -> Inv s vs -> Inv (mrun ops s) (wrun W ops s vs).
   Proof.
     induction ops as [|o ops IH]; intros s vs Hwf Hpx HI; cbn [mrun fold_left wrun]; [exact HI|].
     cbn [mwf] in Hwf. apply andb_prop in Hwf as [Ho Hwf].
-    unfold prox_ok in Hpx. cbn [forallb] in Hpx. apply andb_prop in Hpx as [Hpo Hpx].
+    unfold steps_ok in Hpx. cbn [forallb] in Hpx. apply andb_prop in Hpx as [Hpo Hpx].
     apply (IH (mstep s o) (wstep W vs s o) Hwf Hpx). apply Inv_step; assumption.
   Qed.
 
   Corollary world_samples_genuine_init ops vs :
-    mwf ops minit = true -> prox_ok W ops = true -> Inv (mrun ops minit) (wrun W ops minit vs).
+    mwf ops minit = true -> steps_ok W ops = true -> Inv (mrun ops minit) (wrun W ops minit vs).
   Proof. intros Hwf Hpx. apply world_samples_genuine; [exact Hwf|exact Hpx|]. intros f t []. Qed.
+
+  (** ** the constraints the steps add to the functions hold at the values of the run *)
+
+  (** what the accuracy constraint of an inexact gradient step means, whatever the valuation: the recorded
+      object holds iff the direction (leaf S n) is within the accuracy of the gradient (leaf n) *)
+  Lemma inexact_cons_holds (rho : nat -> E) (phi : nat -> R) n rel eps :
+    holds rho phi (inexact_cons n rel eps) <->
+    nrm2 (vsub (rho n) (rho (S n))) <= Q2R eps ^ 2 * (if rel then nrm2 (rho n) else 1).
+  Proof.
+    unfold inexact_cons.
+    assert (Hvp : forall v, NoDupKeys nat (inexact_vp n v)).
+    { intros v. unfold inexact_vp, NoDupKeys, keys. destruct v; cbn; repeat constructor; tauto. }
+    assert (Hvx : forall v : nat, NoDupKeys ekey ((fun _ : nat => @nil (ekey * Q)) v)) by (intros v; constructor).
+    assert (Hleaf : forall k (w : E), inner (evalP rho [(k, 1%Q)]) w = inner (rho k) w).
+    { intros k w. cbn [evalP]. rewrite inner_add_l, inner_scal_l, inner_zero_l, Q2R_one. lra. }
+    assert (Hn2 : forall a b a' b' : E, veq a a' -> veq b b' -> nrm2 (vsub a b) = nrm2 (vsub a' b')).
+    { intros a b a' b' Ha Hb. unfold nrm2. apply veq_inner; apply veq_sub; assumption. }
+    assert (Hn1 : forall a a' : E, veq a a' -> nrm2 a = nrm2 a') by (intros a a' Ha; unfold nrm2; apply veq_inner; exact Ha).
+    destruct rel; cbn [inexact_formula].
+    - rewrite (compileC_holds rho phi (fun _ => eps) (inexact_vp n) (fun _ => []) Hvp Hvx) by (cbn; tauto).
+      cbn [denoteC denoteX denoteP sdenote inexact_vp]. fold (nrm2 (vsub (evalP rho [(n, 1%Q)]) (evalP rho [(S n, 1%Q)]))).
+      fold (nrm2 (evalP rho [(n, 1%Q)])).
+      rewrite (Hn2 (evalP rho [(n, 1%Q)]) (evalP rho [(S n, 1%Q)]) (rho n) (rho (S n))) by (intro w; apply Hleaf).
+      rewrite (Hn1 (evalP rho [(n, 1%Q)]) (rho n)) by (intro w; apply Hleaf).
+      rewrite RMicromega.Q2R_0. lra.
+    - rewrite (compileC_holds rho phi (fun _ => eps) (inexact_vp n) (fun _ => []) Hvp Hvx) by (cbn; tauto).
+      cbn [denoteC denoteX denoteP sdenote inexact_vp]. fold (nrm2 (vsub (evalP rho [(n, 1%Q)]) (evalP rho [(S n, 1%Q)]))).
+      rewrite (Hn2 (evalP rho [(n, 1%Q)]) (evalP rho [(S n, 1%Q)]) (rho n) (rho (S n))) by (intro w; apply Hleaf).
+      rewrite RMicromega.Q2R_0. lra.
+  Qed.
+
+  (** the orthogonality constraints of a line search, whatever the valuation: x is leaf n, gx leaf S n *)
+  Lemma leaf_value (rho : nat -> E) k (w : E) : inner (evalP rho [(k, 1%Q)]) w = inner (rho k) w.
+  Proof. cbn [evalP]. rewrite inner_add_l, inner_scal_l, inner_zero_l, Q2R_one. lra. Qed.
+
+  Lemma ls_cons0_holds (rho : nat -> E) (phi : nat -> R) n (x0 : pdict) :
+    NoDupKeys nat x0 ->
+    (holds rho phi (ls_cons0 n x0) <-> inner (vsub (rho n) (evalP rho x0)) (rho (S n)) = 0).
+  Proof.
+    intros Hnd. unfold ls_cons0.
+    assert (Hvp : forall v, NoDupKeys nat (ls_vp0 n x0 v)).
+    { intros v. unfold ls_vp0. destruct v as [|[|v]]; [|exact Hnd|]; unfold NoDupKeys, keys; cbn; repeat constructor; tauto. }
+    assert (Hvx : forall v : nat, NoDupKeys ekey ((fun _ : nat => @nil (ekey * Q)) v)) by (intros v; constructor).
+    rewrite (compileC_holds rho phi (fun _ => 0%Q) (ls_vp0 n x0) (fun _ => []) Hvp Hvx) by (cbn; tauto).
+    cbn [denoteC denoteX denoteP sdenote ls_vp0].
+    assert (He : inner (vsub (evalP rho [(n, 1%Q)]) (evalP rho x0)) (evalP rho [(S n, 1%Q)])
+                 = inner (vsub (rho n) (evalP rho x0)) (rho (S n))).
+    { apply veq_inner; [apply veq_sub; [intro w; apply leaf_value|apply veq_refl]|intro w; apply leaf_value]. }
+    rewrite He, RMicromega.Q2R_0. tauto.
+  Qed.
+
+  Lemma ls_cons_holds (rho : nat -> E) (phi : nat -> R) n (d : pdict) :
+    NoDupKeys nat d ->
+    (holds rho phi (ls_cons n d) <-> inner (evalP rho d) (rho (S n)) = 0).
+  Proof.
+    intros Hnd. unfold ls_cons.
+    assert (Hvp : forall v, NoDupKeys nat (ls_vp n d v)).
+    { intros v. unfold ls_vp. destruct v as [|v]; [exact Hnd|]; unfold NoDupKeys, keys; cbn; repeat constructor; tauto. }
+    assert (Hvx : forall v : nat, NoDupKeys ekey ((fun _ : nat => @nil (ekey * Q)) v)) by (intros v; constructor).
+    rewrite (compileC_holds rho phi (fun _ => 0%Q) (ls_vp n d) (fun _ => []) Hvp Hvx) by (cbn; tauto).
+    cbn [denoteC denoteX denoteP sdenote ls_vp].
+    assert (He : inner (evalP rho d) (evalP rho [(S n, 1%Q)]) = inner (evalP rho d) (rho (S n))).
+    { apply veq_inner; [apply veq_refl|intro w; apply leaf_value]. }
+    rewrite He, RMicromega.Q2R_0. tauto.
+  Qed.
+
+  (** where a recorded constraint comes from, and why it holds: the accuracy constraint of an inexact step
+      between two existing leaves whose values are within the accuracy, or an orthogonality constraint of a line
+      search whose leaves and (earlier) points satisfy it *)
+  Definition cons_src (np : nat) (rho : nat -> E) (c : edict * sense) : Prop :=
+    (exists n rel eps, (S n < np)%nat /\ c = inexact_cons n rel eps /\
+       nrm2 (vsub (rho n) (rho (S n))) <= Q2R eps ^ 2 * (if rel then nrm2 (rho n) else 1))
+    \/ (exists n x0, (S n < np)%nat /\ c = ls_cons0 n x0 /\ keys_below n x0 = true /\ NoDupKeys nat x0 /\
+           inner (vsub (rho n) (evalP rho x0)) (rho (S n)) = 0)
+    \/ (exists n d, (S n < np)%nat /\ c = ls_cons n d /\ keys_below n d = true /\ NoDupKeys nat d /\
+           inner (evalP rho d) (rho (S n)) = 0).
+
+  Lemma cons_src_holds np rho phi c : cons_src np rho c -> holds rho phi c.
+  Proof.
+    intros [(n & rel & eps & _ & -> & Hb)|[(n & x0 & _ & -> & _ & Hnd & H)|(n & d & _ & -> & _ & Hnd & H)]].
+    - apply inexact_cons_holds. exact Hb.
+    - apply (ls_cons0_holds rho phi n x0 Hnd). exact H.
+    - apply (ls_cons_holds rho phi n d Hnd). exact H.
+  Qed.
+
+  Lemma cons_src_agree np np' rho rho' c :
+    (np <= np')%nat -> (forall i, (i < np)%nat -> rho' i = rho i) -> cons_src np rho c -> cons_src np' rho' c.
+  Proof.
+    intros Hle Hag [(n & rel & eps & Hn & Hc & Hb)|[(n & x0 & Hn & Hc & Hk & Hnd & H)|(n & d & Hn & Hc & Hk & Hnd & H)]].
+    - left. exists n, rel, eps. split; [lia|]. split; [exact Hc|]. rewrite !Hag by lia. exact Hb.
+    - right. left. exists n, x0. split; [lia|]. split; [exact Hc|]. split; [exact Hk|]. split; [exact Hnd|].
+      rewrite !Hag by lia. rewrite (evalP_agree rho rho' n x0 Hk) by (intros i Hi; apply Hag; lia). exact H.
+    - right. right. exists n, d. split; [lia|]. split; [exact Hc|]. split; [exact Hk|]. split; [exact Hnd|].
+      rewrite !Hag by lia. rewrite (evalP_agree rho rho' n d Hk) by (intros i Hi; apply Hag; lia). exact H.
+  Qed.
+
+  Definition CInv (s : mstate) (vs : (nat -> E) * (nat -> R)) : Prop :=
+    forall f c, In (f, c) (m_cons s) -> cons_src (m_np s) (fst vs) c.
+
+  Lemma CInv_step s vs o :
+    CInv s vs -> op_wf s o = true -> step_ok W o = true -> CInv (mstep s o) (wstep W vs s o).
+  Proof.
+    intros HI Hwf Hpx f c Hin.
+    destruct (wstep_agree vs s o) as [Hr _]. destruct (mstep_counters s o) as [Hc _].
+    assert (Hold : In (f, c) (m_cons s) -> cons_src (m_np (mstep s o)) (fst (wstep W vs s o)) c).
+    { intros H. exact (cons_src_agree _ _ _ _ c Hc Hr (HI f c H)). }
+    destruct o as [|g p|g|g p gamma|g dir|g p rel eps|g x0 dirs]; cbn [mstep m_cons] in Hin; try (apply Hold, Hin).
+    - apply in_app_or in Hin as [Hin|[Heq|[]]]; [apply Hold, Hin|]. injection Heq as <- <-.
+      left. exists (m_np s), rel, eps. cbn [mstep m_np]. split; [lia|]. split; [reflexivity|].
+      cbn [wstep fst]. rewrite (upd_other _ (S (m_np s)) _ (m_np s)) by lia. rewrite !upd_same.
+      apply inexact_bound.
+    - cbn [op_wf step_ok] in Hwf, Hpx. apply andb_prop in Hwf as [Hwf Hdirs]. apply andb_prop in Hwf as [Hk0 Hnd0].
+      rewrite forallb_forall in Hdirs.
+      set (x := linesearch W g (evalP (fst vs) x0) (map (evalP (fst vs)) dirs)).
+      destruct (ls_orth W g (evalP (fst vs) x0) (map (evalP (fst vs)) dirs) Hpx) as [Ho0 Hod]. fold x in Ho0, Hod.
+      assert (Hag : forall q : pdict, keys_below (m_np s) q = true ->
+                evalP (fst (wstep W vs s (MLineSearch g x0 dirs))) q = evalP (fst vs) q).
+      { intros q Hq. apply (evalP_agree (fst vs) _ (m_np s) q Hq). exact Hr. }
+      apply in_app_or in Hin as [Hin|[Heq|Hin]]; [apply Hold, Hin| |].
+      + injection Heq as <- <-. right. left. exists (m_np s), x0. cbn [mstep m_np].
+        split; [lia|]. split; [reflexivity|]. split; [exact Hk0|]. split; [apply nodupb_NoDup; exact Hnd0|].
+        rewrite (Hag x0 Hk0). cbn [wstep fst]. rewrite (upd_other _ (S (m_np s)) _ (m_np s)) by lia.
+        rewrite !upd_same. exact Ho0.
+      + apply in_map_iff in Hin as [d [Heq Hd]]. injection Heq as <- <-.
+        specialize (Hdirs d Hd). apply andb_prop in Hdirs as [Hkd Hndd].
+        right. right. exists (m_np s), d. cbn [mstep m_np].
+        split; [lia|]. split; [reflexivity|]. split; [exact Hkd|]. split; [apply nodupb_NoDup; exact Hndd|].
+        rewrite (Hag d Hkd). cbn [wstep fst]. rewrite upd_same. apply Hod. apply in_map. exact Hd.
+  Qed.
+
+  Theorem world_constraints_inv ops : forall s vs,
+    mwf ops s = true -> steps_ok W ops = true -> CInv s vs -> CInv (mrun ops s) (wrun W ops s vs).
+  Proof.
+    induction ops as [|o ops IH]; intros s vs Hwf Hpx HI; cbn [mrun fold_left wrun]; [exact HI|].
+    cbn [mwf] in Hwf. apply andb_prop in Hwf as [Ho Hwf].
+    unfold steps_ok in Hpx. cbn [forallb] in Hpx. apply andb_prop in Hpx as [Hpo Hpx].
+    apply (IH (mstep s o) _ Hwf Hpx). apply CInv_step; assumption.
+  Qed.
+
+  (** Every constraint a step added to a function holds at the values the real run gives to the leaves -- for
+      every program. *)
+  Theorem world_constraints_hold ops vs f c :
+    mwf ops minit = true -> steps_ok W ops = true ->
+    In (f, c) (m_cons (mrun ops minit)) -> holds (fst (wrun W ops minit vs)) (snd (wrun W ops minit vs)) c.
+  Proof.
+    intros Hwf Hpx Hin. assert (H0 : CInv minit vs) by (intros ? ? []).
+    exact (cons_src_holds _ _ _ c (world_constraints_inv ops minit vs Hwf Hpx H0 f c Hin)).
+  Qed.
 
   (** Leaves that exist before the run (and free leaves in general) keep the value the initial
       valuation gives them: the starting point and the optimum are whatever the user's initial
